@@ -41,6 +41,7 @@ from typing import Iterable
 
 import numpy as np
 import sympy as sym
+from sympy.printing.str import StrPrinter
 
 
 def numpy_to_blackbird(A, var_name):
@@ -137,6 +138,46 @@ def _format_value(v):
     return "{}".format(v)
 
 
+class _BlackbirdPrinter(StrPrinter):
+    """SymPy string printer for Blackbird expressions.
+
+    In Blackbird the unary minus binds tighter than the power operator, i.e.,
+    ``-x**2`` denotes ``(-x)**2``, while SymPy prints ``-(x**2)`` as ``-x**2``.
+    A power that directly follows a leading minus sign is therefore bracketed.
+    """
+
+    def _print_Mul(self, expr):
+        res = super()._print_Mul(expr)
+        if not res.startswith("-"):
+            return res
+
+        # find the end of the first factor, and whether it is a power
+        depth = 0
+        is_power = False
+        end = len(res)
+        for i in range(1, len(res)):
+            c = res[i]
+            if c in "([":
+                depth += 1
+            elif c in ")]":
+                depth -= 1
+            elif depth == 0 and c in "*/":
+                if res[i:i + 2] == "**" or res[i - 1] == "*":
+                    is_power = True
+                else:
+                    end = i
+                    break
+
+        if is_power:
+            return "-({}){}".format(res[1:end], res[end:])
+        return res
+
+
+def sympy_to_blackbird(expr):
+    """Prints a SymPy expression such that it denotes the same expression in Blackbird."""
+    return _BlackbirdPrinter().doprint(expr)
+
+
 def _format_symbolic(expr):
     """Formats a SymPy expression of free parameters as a Blackbird expression,
     with every free parameter ``p`` written as ``{p}``.
@@ -151,7 +192,7 @@ def _format_symbolic(expr):
         str: the Blackbird representation of the expression
     """
     braced = {p: sym.Symbol("{" + str(p) + "}") for p in expr.free_symbols}
-    return str(expr.xreplace(braced))
+    return sympy_to_blackbird(expr.xreplace(braced))
 
 
 class BlackbirdProgram:
